@@ -383,17 +383,44 @@ def r4_expression_grammar(ctx) -> None:
         r.ok("C13.R4", f.qual, "parse_all=True", loc)
     else:
         r.violation("C13.R4", f.qual, f"parse call(s) with parse_all={calls}", "the whole expression must be consumed", f.loc)
+    # the parse actions interpreted (sa.tabulate) on the token lists pyparsing hands them
+    from ..tabulate import ClassProxy, call_method, Raised
     b = prog.func(CE + ".BinaryConditionOp.from_parsed")
-    src = unparse(b.node)
-    if "operands = t[0][0::2]" in src and "result = cls(l, operands[0], operands[1])" in src and "for operand in operands[2:]:" in src and "result = cls(l, result, operand)" in src:
-        r.ok("C13.R4", b.qual, "left fold over every second token", b.loc)
-    else:
-        r.violation("C13.R4", b.qual, "operands = t[0][0::2]; result = cls(l, operands[0], operands[1]); for operand in operands[2:]: result = cls(l, result, operand)", "binary parse action no longer builds the left-associative tree over all operands", b.loc)
     nn = prog.func(CE + ".ConditionNOT.from_parsed")
-    if "cls(l, t[0][1])" in unparse(nn.node):
-        r.ok("C13.R4", nn.qual, "NOT takes t[0][1]", nn.loc)
+
+    class _Node:
+        def __init__(self, *a, **k):
+            self.a, self.expr = a, None
+        def set_expression(self, s_): self.expr = s_
+        def shape(self):
+            return tuple(x.shape() if isinstance(x, _Node) else x for x in self.a[1:])
+    IK4 = {"max_steps": 4000}
+    problems4 = []
+    for toks, want_shape in ((["A", "and", "B"], ("A", "B")), (["A", "and", "B", "and", "C"], (("A", "B"), "C")), (["A", "or", "B", "or", "C", "or", "D"], ((("A", "B"), "C"), "D"))):
+        klass = ClassProxy(prog, CE + ".BinaryConditionOp", {}, ctor=lambda *a, **k: _Node(*a, **k), interp_kwargs=IK4)
+        try:
+            out4 = call_method(prog, CE + ".BinaryConditionOp", "from_parsed", klass, {}, "SRC", 7, [list(toks)], interp_kwargs=IK4)
+            if not isinstance(out4, _Node) or out4.shape() != want_shape:
+                problems4.append(f"tokens {toks} → {out4.shape() if isinstance(out4, _Node) else out4!r} instead of {want_shape}")
+            elif out4.a[0] != 7:
+                problems4.append(f"tokens {toks}: location {out4.a[0]!r} instead of 7")
+        except Raised as ex:
+            problems4.append(f"tokens {toks}: raises {ex}")
+    if not problems4:
+        r.ok("C13.R4", b.qual, "left fold over every second token (interpreted on 2, 3 and 4 operands)", b.loc)
     else:
-        r.violation("C13.R4", nn.qual, "expr = cls(l, t[0][1])", "NOT parse action does not take the operand token", nn.loc)
+        r.violation("C13.R4", b.qual, "operands = t[0][0::2]; result = cls(l, operands[0], operands[1]); for operand in operands[2:]: result = cls(l, result, operand)", f"binary parse action no longer builds the left-associative tree over all operands: {problems4[0]}", b.loc)
+    klass = ClassProxy(prog, CE + ".ConditionNOT", {}, ctor=lambda *a, **k: _Node(*a, **k), interp_kwargs=IK4)
+    try:
+        out4 = call_method(prog, CE + ".ConditionNOT", "from_parsed", klass, {}, "SRC", 3, [["not", "OPERAND"]], interp_kwargs=IK4)
+        okn = isinstance(out4, _Node) and out4.shape() == ("OPERAND",)
+        whyn = f"gives {out4.shape() if isinstance(out4, _Node) else out4!r}"
+    except Raised as ex:
+        okn, whyn = False, f"raises {ex}"
+    if okn:
+        r.ok("C13.R4", nn.qual, "NOT takes t[0][1] (interpreted)", nn.loc)
+    else:
+        r.violation("C13.R4", nn.qual, "expr = cls(l, t[0][1])", f"NOT parse action does not take the operand token: ['not', 'OPERAND'] {whyn}", nn.loc)
     r.floor("C13.R4", 6)
 
 
